@@ -1943,6 +1943,10 @@ bool DGXMLScanner::scanStartTagNS(bool& gotData)
     //  explictly provided attrs above.
     attCount = buildAttList(attCount, elemDecl, *fAttrList);
 
+    // 'xmlns' must not be used as the prefix of an element name
+    if (!XMLString::compareNString(qnameRawBuf, XMLUni::fgXMLNSColonString, 6))
+        emitError(XMLErrs::NoXMLNSAsElementPrefix, qnameRawBuf);
+
     //  If we have a document handler, then tell it about this start tag. We
     //  don't have any URI id to send along, so send fEmptyNamespaceId. We also do not send
     //  any prefix since its just one big name if we are not doing namespaces.
